@@ -38,7 +38,10 @@ package main
 //                   an absent key); syncMapLoad – `Load` / `Range` (a READ whose value the caller uses: listed so
 //                   that "this cache is read but never filled" is an obligation on the table)
 //       mutex     – between `m.Lock()` and `m.Unlock()` (or after `m.Lock(); defer m.Unlock()`) of a
-//                   sync.Mutex / sync.RWMutex in the same function
+//                   sync.Mutex / sync.RWMutex in the same function: an UNCONDITIONAL store (last writer wins)
+//       mutexIfAbsent – the same, and the statement is `M[k] = v` in the "absent" branch of a comma-ok lookup of the
+//                   same element: `if p, ok := M[k]; ok { … } else { M[k] = v }` / `if _, ok := M[k]; !ok { M[k] = v }`
+//                   (load-or-publish: the first writer wins)
 //       once      – inside the function literal handed to (*sync.Once).Do
 //       nilGuardInit / nilGuardNoInit – the statement is `X = e` directly inside `if X == nil { … }`
 //                   for a package-level X whose declaration has / has not an initialiser
@@ -156,6 +159,7 @@ func loadSwx(repo string) (*swx, error) {
 }
 
 type swx struct {
+	extraRoots []string // further entry points (table ValidateWrites: document validation, router construction)
 	pkgList   []*packages.Package
 	repo      string
 	fset      *token.FileSet
@@ -636,6 +640,9 @@ func (x *swx) findRoots() {
 		"openapi3filter.ValidateRequest": true, "openapi3filter.ValidateResponse": true,
 		"openapi3.(*Schema).VisitJSON": true,
 		"openapi3gen.NewSchemaRefForValue": true,
+	}
+	for _, r := range x.extraRoots {
+		want[r] = true
 	}
 	for obj := range x.funcs {
 		if want[funcName(obj)] {
@@ -1455,6 +1462,9 @@ func (x *swx) scanFunc(fi *fnInfo) []swCand {
 		} else if row.sync == "none" {
 			if underMutex(at.Pos()) {
 				row.sync = "mutex"
+				if x.storeIfAbsent(sf, lhs, at.Pos()) {
+					row.sync = "mutexIfAbsent"
+				}
 			} else if inOnce(at.Pos()) {
 				row.sync = "once"
 			}
@@ -1559,6 +1569,44 @@ func (x *swx) scanFunc(fi *fnInfo) []swCand {
 	return cands
 }
 
+
+// storeIfAbsent: the write `M[k] = …` at pos sits in the absent-branch of a comma-ok lookup of M[k].
+func (x *swx) storeIfAbsent(sf *swFunc, lhs ast.Expr, pos token.Pos) bool {
+	ix, ok := ast.Unparen(lhs).(*ast.IndexExpr)
+	if !ok {
+		return false
+	}
+	want := x.text(ix)
+	found := false
+	ast.Inspect(sf.decl.Body, func(n ast.Node) bool {
+		ifs, ok := n.(*ast.IfStmt)
+		if !ok || ifs.Init == nil || found {
+			return true
+		}
+		as, ok := ifs.Init.(*ast.AssignStmt)
+		if !ok || len(as.Lhs) != 2 || len(as.Rhs) != 1 {
+			return true
+		}
+		rix, ok := ast.Unparen(as.Rhs[0]).(*ast.IndexExpr)
+		okVar, ok2 := as.Lhs[1].(*ast.Ident)
+		if !ok || !ok2 || x.text(rix) != want {
+			return true
+		}
+		in := func(b ast.Node) bool { return b != nil && b.Pos() <= pos && pos < b.End() }
+		switch c := ast.Unparen(ifs.Cond).(type) {
+		case *ast.Ident: // if p, ok := M[k]; ok { … } else { M[k] = v }
+			if c.Name == okVar.Name && ifs.Else != nil && in(ifs.Else) {
+				found = true
+			}
+		case *ast.UnaryExpr: // if _, ok := M[k]; !ok { M[k] = v }
+			if id, isId := ast.Unparen(c.X).(*ast.Ident); isId && c.Op == token.NOT && id.Name == okVar.Name && in(ifs.Body) {
+				found = true
+			}
+		}
+		return true
+	})
+	return found
+}
 
 // recordAppend: `append(s, …)`. With cap(s) == len(s) guaranteed by the expression itself (full slice expression whose
 // max equals its high bound, or slices.Clip) nothing is written; otherwise the elements of s are (potentially) written.
